@@ -518,6 +518,60 @@ func runC15(c *core.Ctx) {
 	c15Shapes(c)
 	c.Group("metadata-endpoint-location-forms")
 	c15LocationForms(c)
+	c.Group("metadata-validity-instants")
+	c15ValidityInstants(c)
+}
+
+// c15ValidityInstants: validUntil / cacheDuration values over the whole range the types can hold, on EntityDescriptor and on an EntityDescriptor inside an EntitiesDescriptor: one generation must preserve them (instants to the millisecond).
+func c15ValidityInstants(c *core.Ctx) {
+	utc := time.UTC
+	instants := []time.Time{
+		{}, time.Date(1, 1, 1, 0, 0, 1, 0, utc), time.Date(1000, 6, 15, 12, 0, 0, 0, utc), time.Date(1600, 2, 29, 23, 59, 59, 999000000, utc),
+		time.Date(1901, 12, 13, 20, 45, 51, 0, utc), time.Date(1969, 12, 31, 23, 59, 59, 0, utc), time.Date(1969, 12, 31, 23, 59, 59, 999000000, utc),
+		time.Unix(0, 0).UTC(), time.Unix(0, 1000000).UTC(), time.Unix(0, 500000000).UTC(), time.Unix(0, 999000000).UTC(), time.Unix(1, 0).UTC(), time.Unix(-1, 0).UTC(),
+		time.Date(1970, 1, 1, 5, 30, 0, 0, time.FixedZone("", 5*3600+1800)), time.Date(1970, 1, 1, 0, 0, 0, 0, time.FixedZone("", -8*3600)),
+		time.Date(2001, 9, 9, 1, 46, 40, 0, utc), time.Date(2038, 1, 19, 3, 14, 7, 0, utc), time.Date(2038, 1, 19, 3, 14, 8, 0, utc), time.Date(2106, 2, 7, 6, 28, 16, 0, utc),
+		time.Date(2262, 4, 11, 23, 47, 16, 854000000, utc), time.Date(2262, 4, 12, 0, 0, 0, 0, utc), time.Date(9999, 12, 31, 23, 59, 59, 999000000, utc),
+	}
+	caches := []time.Duration{0, time.Second, 90 * time.Minute, 1<<63 - 1}
+	role := saml.RoleDescriptor{ProtocolSupportEnumeration: "urn:oasis:names:tc:SAML:2.0:protocol"}
+	for ii, in := range instants {
+		for ci, cd := range caches {
+			for _, where := range []string{"entity", "entity-in-entities"} {
+				ii, in, ci, cd, where := ii, in, ci, cd, where
+				c.Case(fmt.Sprintf("validity/%s/instant#%d=%s/cache#%d", where, ii, in.Format(time.RFC3339Nano), ci), func(t *core.T) {
+					t.NonTrivial()
+					ed := &saml.EntityDescriptor{EntityID: "https://validity.example.com/", SPSSODescriptors: []saml.SPSSODescriptor{{SSODescriptor: saml.SSODescriptor{RoleDescriptor: role},
+						AssertionConsumerServices: []saml.IndexedEndpoint{{Binding: saml.HTTPPostBinding, Location: "https://validity.example.com/acs", Index: 1}}}}}
+					switch where {
+					case "entity":
+						ed.ValidUntil, ed.CacheDuration = in, cd
+						checkED(t, ed, false)
+					case "entity-in-entities":
+						ed.ValidUntil, ed.CacheDuration = in, cd
+						es := saml.EntitiesDescriptor{EntityDescriptors: []saml.EntityDescriptor{*ed}}
+						b, err := xml.Marshal(es)
+						t.Impl(1)
+						var out saml.EntitiesDescriptor
+						if err == nil {
+							err = xml.Unmarshal(b, &out)
+							t.Impl(1)
+						}
+						t.Compared()
+						if err != nil || len(out.EntityDescriptors) != 1 {
+							t.Fail("C15/metadata/entities-generation", "EntitiesDescriptor generation failed: %v", err)
+							return
+						}
+						got := out.EntityDescriptors[0]
+						if !got.ValidUntil.Round(time.Millisecond).Equal(in.Round(time.Millisecond)) || got.CacheDuration != cd {
+							t.Fail("C15/metadata/lossy", "inside an EntitiesDescriptor validUntil %s / cacheDuration %s came back as %s / %s", in.Format(time.RFC3339Nano), cd, got.ValidUntil.Format(time.RFC3339Nano), got.CacheDuration)
+							t.Input("doc1", string(b))
+						}
+					}
+				})
+			}
+		}
+	}
 }
 
 // c15LocationForms: lexical forms of valid http(s) URLs (everything the scheme check admits) in every endpoint position: one
